@@ -11,6 +11,8 @@
 #include <stdlib.h>
 #include <string.h>
 #include <locale.h>
+#include <signal.h>
+#include <unistd.h>
 
 #define SHADOW(fn) static volatile unsigned long shadow_##fn; static inline void touch_##fn(void) { shadow_##fn = shadow_##fn + 1; }
 
@@ -92,3 +94,16 @@ int __wrap_close(int fd) {
     else sched_yield();          /* give other threads a chance to allocate the number just released */
     return r;
 }
+
+/* Process-wide state that a library call changes and later restores: signal dispositions, the working directory.  The calls
+ * themselves are thread-safe, but two threads doing save / change / restore at once leave the process in a state neither would have
+ * left alone (and one of them runs part of its work under the other's temporary setting).  Same shadow-word instrument. */
+SHADOW(sigdisp)
+int __real_sigaction(int sig, const struct sigaction *act, struct sigaction *old);
+int __wrap_sigaction(int sig, const struct sigaction *act, struct sigaction *old) { if (act) touch_sigdisp(); return __real_sigaction(sig, act, old); }
+typedef void (*sighandler_fn)(int);
+sighandler_fn __real_signal(int sig, sighandler_fn h);
+sighandler_fn __wrap_signal(int sig, sighandler_fn h) { touch_sigdisp(); return __real_signal(sig, h); }
+SHADOW(cwd)
+int __real_chdir(const char *p);
+int __wrap_chdir(const char *p) { touch_cwd(); return __real_chdir(p); }
